@@ -52,7 +52,7 @@ def check_block_encode(ctx, rule):
     ctx.ob(rule, q, ok, "the checksum is appended iff the block type has a checksum field" if ok else "the checksum argument is not appended exactly when checksum_format is non-empty", key="checksum-arg", where=f.where)
 
 
-def check_block_decode(ctx, rule):
+def check_block_decode(ctx, rule, with_checksum=True):
     repo = ctx.repo
     f = repo.method("Block", "decode", inherited=False)
     ctx.touch(f)
@@ -93,7 +93,10 @@ def check_block_decode(ctx, rule):
         f"cls.checksum_format != '' and {fvar}[3] != obj.checksum",
     )
     if not ok and len(tests) >= 1:
-        ok = _checksum_gate_equivalent(f, tests, fvar)
+        ok = _checksum_gate_equivalent(f, tests, fvar, formats=("", "H") if with_checksum else ("",))
+    if not with_checksum:
+        ctx.ob(rule, q, ok, "a block type without a checksum field is never refused by the checksum gate" if ok else f"the checksum gate `{[norm(t.ast) for t in tests]}` can refuse a block type that has no checksum field", key="checksum-gate", where=f.where)
+        return
     ctx.ob(rule, q, ok, "a block type with a checksum field compares the computed checksum with the transmitted one" if ok else
            f"checksum gate is `{[norm(t.ast) for t in tests]}`: a block with a wrong checksum can be accepted", key="checksum-gate", where=f.where)
     if tests:
@@ -105,7 +108,7 @@ def check_block_decode(ctx, rule):
                "the decoded block can be returned without passing the checksum comparison (or a mismatch does not return None)", key="checksum-paths", where=f.where)
 
 
-def _checksum_gate_equivalent(f, tests, fvar) -> bool:
+def _checksum_gate_equivalent(f, tests, fvar, formats=("", "H")) -> bool:
     """Finite-domain evaluation of the gate condition: the block is refused iff the block type has a checksum field and
     the computed checksum differs from the transmitted one - evaluated for checksum_format in {'', 'H'}, computed in
     {0, 300}, transmitted in {0, 300, 77} (0 included: a truthiness test on the transmitted value is wrong)."""
@@ -134,7 +137,7 @@ def _checksum_gate_equivalent(f, tests, fvar) -> bool:
     class O:
         pass
 
-    for fmt in ("", "H"):
+    for fmt in formats:
         for computed in (0, 300):
             for received in (0, 300, 77):
                 cls_, obj = O(), O()
